@@ -358,7 +358,9 @@ def r_contains(ctx):
             if o.kind != 'ret' or o.value == FALSE:
                 continue
             ntrue += 1
-            pos = [t for f in o.state.pc for t in T.subterms(f) if t[0] == 'var' and 'iter.pos@' in t[1]]
-            ok = o.value == TRUE and bool(pos) and ip.entails(o.state, AND(eq(T.fld(('elem', A(0), pos[0]), 'id', 'usize'), T.fld(A(1), 'id', 'usize')), lt(pos[0], T.typed(('len', A(0)), 'usize'))))
+            # the true leaf carries a witness: in closed form (loopsum)  any k. v[k].id == x.id [&& ..]
+            wit = [f for f in o.state.pc if f[0] == 'quant' and f[1] == 'any' and f[2] == A(0)]
+            same = lambda k: eq(T.fld(('elem', A(0), k), 'id', 'usize'), T.fld(A(1), 'id', 'usize'))
+            ok = o.value == TRUE and any(same(f[3]) in T.conjuncts(f[4]) for f in wit)
             verdict(ctx, ok, 'contains/true-only-for-an-element-equal-to-x', fn, {'leaf_constraints': pc_text(o)}, cfg)
         verdict(ctx, ntrue >= 1, 'contains/true-leaf-present', fn, None, cfg)
